@@ -54,6 +54,14 @@ theorem parse_error_fields_total : ∀ f ∈ fields, ∀ text : List Char, runCh
 theorem parse_error_fields_present : 6 ≤ fields.length := by
   decide
 
+/-- obligation on the GENERATED call arguments: at every call of `ParseError::expected` / `invalid_literal` /
+`custom` in the parser (src/parser/{mod,expr,filter_map,signature}.rs) each text argument is a string literal, a
+variable handed over as it is (the token, the decoder's error) or a `format!` over variables — nothing is computed
+on a token's text on its way into the constructor (no slice, no `chars().take(n)`, no helper), so together with
+`parse_error_fields_total` the whole path token → message is one the audit has seen. The calls are there. -/
+theorem parse_error_call_args_plain : (∀ a ∈ callArgs, a.arg.plain = true) ∧ 20 ≤ callArgs.length := by
+  decide
+
 /-! ## why the classification says what it says (std's `String::truncate`) -/
 
 /-- UTF-8 width of a character -/
@@ -91,6 +99,10 @@ example : (Op.meth .k_truncate).total = false ∧ (Op.meth .k_unwrap).total = fa
     (Op.index "text[..48]").total = false ∧ (Op.mac .m_unreachable).total = false ∧
     (Op.meth (.other "floor_char_boundary")).total = false ∧ (Op.call (.other "quote_token")).total = false ∧
     (Op.arith "-").total = false := by decide
+
+/-- a computed argument is rejected; literals, variables and `format!` are there -/
+example : (Arg.other "&text[..48]").plain = false ∧ (callArgs.any fun a => a.arg == .lit) = true ∧
+    (callArgs.any fun a => a.arg == .fmt) = true ∧ (callArgs.any fun a => a.arg == .var "token") = true := by decide
 
 /-- a field that goes through a helper is rejected; the verbatim ones run -/
 example : ([Meth.other "quote_token(got)"].all Meth.verbatim) = false ∧
